@@ -125,7 +125,19 @@ func runRefactors(repo string, only []string) int {
 	vdir := verifDir()
 	files, _ := filepath.Glob(filepath.Join(vdir, "refactors", "*", "*.diff"))
 	sort.Strings(files)
-	bad, n := 0, 0
+	bad, n, nOpen, stale := 0, 0, 0, 0
+	// refactors/OPEN.txt: "<Rn/rk.diff> <why the checker still alarms on it>" - known, documented limitations
+	open := map[string]string{}
+	if b, err := os.ReadFile(filepath.Join(vdir, "refactors", "OPEN.txt")); err == nil {
+		for _, ln := range strings.Split(string(b), "\n") {
+			ln = strings.TrimSpace(ln)
+			if ln == "" || strings.HasPrefix(ln, "#") {
+				continue
+			}
+			k, v, _ := strings.Cut(ln, " ")
+			open[k] = strings.TrimSpace(v)
+		}
+	}
 	for _, pf := range files {
 		name := filepath.Base(filepath.Dir(pf)) + "/" + filepath.Base(pf)
 		if len(only) > 0 {
@@ -181,13 +193,23 @@ func runRefactors(repo string, only []string) int {
 		st := "ok  "
 		if res != "ok" {
 			st = "FAIL"
-			if !strings.HasPrefix(res, "STALE") {
+			switch {
+			case strings.HasPrefix(res, "STALE"):
+				stale++
+			case open[name] != "":
+				// a documented, still open false alarm (refactors/OPEN.txt, DESIGN.md section 10.6)
+				st = "open"
+				nOpen++
+				res += "   [open: " + open[name] + "]"
+			default:
 				bad++
 			}
+		} else if open[name] != "" {
+			res = "ok (listed in OPEN.txt but silent now: remove the entry)"
 		}
 		fmt.Printf("%s %-16s %s\n", st, name, strings.TrimPrefix(res, "ok"))
 	}
-	fmt.Printf("refactors: %d behaviour-preserving patches, %d with false alarms\n", n, bad)
+	fmt.Printf("refactors: %d behaviour-preserving patches, %d with false alarms, %d open (documented in refactors/OPEN.txt), %d stale\n", n, bad, nOpen, stale)
 	if bad > 0 {
 		return 1
 	}
